@@ -106,16 +106,14 @@ fn key_lattice(report: &mut Report) {
     if order != sorted {
         report.add_violation(Violation::new("K/lmdb-order", "LMDB does not iterate the encoded keys in (index, kind, id) order".to_string()));
     }
-    // prefixes: index only, and index + kind
+    // prefixes: index + kind
     for i in indexes {
-        for kind in [None, Some(1u8), Some(2), Some(3)] {
+        for kind in [1u8, 2, 3] {
             let got = arroy::verif::keys::prefix(i, kind);
             let mut want = i.to_be_bytes().to_vec();
-            if let Some(k) = kind {
-                want.push(k);
-            }
+            want.push(kind);
             if got.as_deref() != Some(&want[..]) {
-                report.add_violation(Violation::new("K/prefix", format!("prefix(index {i}, kind {kind:?}) = {got:02x?}, expected {want:02x?}")));
+                report.add_violation(Violation::new("K/prefix", format!("prefix(index {i}, kind {kind}) = {got:02x?}, expected {want:02x?}")));
                 return;
             }
         }
